@@ -51,7 +51,7 @@ def jobs_for(tier):
 
 
 def run_tool(jobs, out, budget):
-    spec = {"seed": seed(), "threads": 14, "lp_limit": 250, "jobs": jobs}
+    spec = {"seed": seed(), "threads": __import__("lib").worker_threads(0.5), "lp_limit": 250, "jobs": jobs}
     jp = os.path.join(out, "jobs.json")
     json.dump(spec, open(jp, "w"))
     cmd = f"ulimit -v 24000000; exec timeout {budget} {os.path.join(BIN, 'pipeline_tool')} {jp} {out}"
@@ -64,7 +64,7 @@ def validate(out, tag):
     with open(tp, "a") as f:
         f.write(json.dumps({"e": "reset", "id": "<end>"}) + "\n")
     res = tlc(SPEC, "SierraPipelineTrace", "SierraPipelineTrace.cfg", f"c14_{tag}", workers=1, timeout=3000,
-              env={"TRACE": tp}, java_opts=JAVA_OPTS_TRACE, heap="8g")
+              env={"TRACE": tp}, java_opts=JAVA_OPTS_TRACE, heap=__import__("lib").tlc_heap(8))
     if res.errors or res.violated:
         raise ToolError(f"SierraPipelineTrace: {res.errors[:2]} {res.violated} (see {res.out_path})")
     rep = None
